@@ -56,6 +56,7 @@ func (m *csRW) Locker(w bool) sync.Locker {
 }
 
 type csHold struct {
+	xid      int // id of the acquisition in the X specs: (client index+1)*100 + program index+1
 	id       int
 	w        bool
 	rel      func()
@@ -63,12 +64,13 @@ type csHold struct {
 }
 
 type csClient struct {
-	c       *sched.Client
-	idx     int
+	c        *sched.Client
+	idx      int
 	inflight int // call id in flight, 0 if none
-	cancel  context.CancelFunc
-	canc    bool
-	holds   map[int]*csHold // by program index
+	pi       int // program index of the call in flight
+	cancel   context.CancelFunc
+	canc     bool
+	holds    map[int]*csHold // by program index
 }
 
 type csDriver struct {
@@ -155,6 +157,17 @@ func (d *csDriver) blockedIDs() []int {
 	return out
 }
 
+func (d *csDriver) blockedXIDs() []int {
+	out := []int{}
+	for _, c := range d.cl {
+		if c.inflight != 0 && d.x.Blocked(c.c) {
+			out = append(out, (c.idx+1)*100+c.pi+1)
+		}
+	}
+	sort.Ints(out)
+	return out
+}
+
 func mode(w bool) string {
 	if w {
 		return "w"
@@ -163,7 +176,7 @@ func mode(w bool) string {
 }
 
 func (d *csDriver) acquired(c *csClient, pi int, id int, w bool, rel func()) *csHold {
-	h := &csHold{id: id, w: w, rel: rel}
+	h := &csHold{id: id, w: w, rel: rel, xid: (c.idx+1)*100 + pi + 1}
 	d.mu.Lock()
 	if w {
 		d.nw++
@@ -174,7 +187,7 @@ func (d *csDriver) acquired(c *csClient, pi int, id int, w bool, rel func()) *cs
 	d.all = append(d.all, h)
 	d.mu.Unlock()
 	c.holds[pi] = h
-	d.x.Log(trace.E{"ev": "ret", "id": id, "res": "ok", "nr": nr, "nw": nw, "actor": c.c.Name})
+	d.x.Log(trace.E{"ev": "ret", "id": id, "xid": h.xid, "res": "ok", "nr": nr, "nw": nw, "actor": c.c.Name})
 	return h
 }
 
@@ -190,7 +203,7 @@ func (d *csDriver) release(h *csHold, who string) {
 		}
 	}
 	d.mu.Unlock()
-	d.x.Log(trace.E{"ev": "relcall", "id": h.id, "first": first, "actor": who})
+	d.x.Log(trace.E{"ev": "relcall", "id": h.id, "xid": h.xid, "first": first, "actor": who})
 	h.rel()
 	d.x.Log(trace.E{"ev": "relret", "id": h.id, "actor": who})
 }
@@ -213,7 +226,7 @@ func (d *csDriver) opFunc(c *csClient, pi int, op csOp, rw bool) sched.Op {
 				ctx, c.cancel = context.WithCancel(ctx)
 			}
 			x.Log(trace.E{"ev": "call", "id": id, "op": "lock", "mode": mode(w), "blk": d.blockedIDs(), "actor": c.c.Name})
-			c.inflight = id
+			c.inflight, c.pi = id, pi
 			rel, err := d.lk.Lock(ctx, w)
 			c.inflight = 0
 			if err != nil {
@@ -221,7 +234,7 @@ func (d *csDriver) opFunc(c *csClient, pi int, op csOp, rw bool) sched.Op {
 				if err != context.Canceled {
 					res = "err:" + err.Error()
 				}
-				x.Log(trace.E{"ev": "ret", "id": id, "res": res, "nr": 0, "nw": 0, "actor": c.c.Name})
+				x.Log(trace.E{"ev": "ret", "id": id, "xid": (c.idx+1)*100 + pi + 1, "res": res, "nr": 0, "nw": 0, "actor": c.c.Name})
 				return
 			}
 			d.acquired(c, pi, id, w, rel)
@@ -234,11 +247,11 @@ func (d *csDriver) opFunc(c *csClient, pi int, op csOp, rw bool) sched.Op {
 			d.mu.Unlock()
 			c.cancel = nil
 			x.Log(trace.E{"ev": "call", "id": id, "op": "trylock", "mode": mode(w), "blk": d.blockedIDs(), "actor": c.c.Name})
-			c.inflight = id
+			c.inflight, c.pi = id, pi
 			rel, ok := d.lk.TryLock(w)
 			c.inflight = 0
 			if !ok {
-				x.Log(trace.E{"ev": "ret", "id": id, "res": "false", "nr": 0, "nw": 0, "actor": c.c.Name})
+				x.Log(trace.E{"ev": "ret", "id": id, "xid": (c.idx+1)*100 + pi + 1, "res": "false", "nr": 0, "nw": 0, "actor": c.c.Name})
 				return
 			}
 			d.acquired(c, pi, id, w, rel)
@@ -251,7 +264,7 @@ func (d *csDriver) opFunc(c *csClient, pi int, op csOp, rw bool) sched.Op {
 			d.mu.Unlock()
 			c.cancel = nil
 			x.Log(trace.E{"ev": "call", "id": id, "op": "llock", "mode": mode(w), "blk": d.blockedIDs(), "actor": c.c.Name})
-			c.inflight = id
+			c.inflight, c.pi = id, pi
 			lk := d.lockR
 			if w {
 				lk = d.lockW
@@ -343,11 +356,12 @@ func (d *csDriver) Run(x *sched.Exec, raw json.RawMessage) json.RawMessage {
 		if key == d.lastQ {
 			return
 		}
-		x.Log(trace.E{"ev": "quiet", "blk": blk})
+		x.Log(trace.E{"ev": "quiet", "blk": blk, "xblk": d.blockedXIDs()})
 		d.lastQ = fmt.Sprint(blk, x.T.Seq())
 	}
 	x.Loop(moves, observe, 80)
 
+	x.Log(trace.E{"ev": "teardown"})
 	// teardown: everything runs freely from here on
 	for _, c := range d.cl {
 		if c.inflight != 0 && c.cancel != nil && !c.canc {
